@@ -15,9 +15,13 @@ if "--also" in args:
         sid, checks = spec.split("=")
         extra[sid] = checks.split(",")
     args = args[:i]
-ids = args or sorted(os.listdir(os.path.join(ROOT, "seeded")))
-ids = [i for i in ids if os.path.exists(os.path.join(ROOT, "seeded", i, "patch.diff"))]
-resf = os.path.join(ROOT, "seeded", "results.json")
+# --benign: the property-PRESERVING changes in /verif/benign (expected outcome: exit 0, never a VIOLATION)
+SDIR = "seeded"
+if args[:1] == ["--benign"]:
+    SDIR, args = "benign", args[1:]
+ids = args or sorted(os.listdir(os.path.join(ROOT, SDIR)))
+ids = [i for i in ids if os.path.exists(os.path.join(ROOT, SDIR, i, "patch.diff"))]
+resf = os.path.join(ROOT, SDIR, "results.json")
 results = json.load(open(resf)) if os.path.exists(resf) else {}
 
 
@@ -28,7 +32,7 @@ def one(sid):
     out = {}
     try:
         subprocess.run(["git", "-C", "/repo", "worktree", "add", "-q", "--detach", wt, "HEAD"], check=True, capture_output=True)
-        r = subprocess.run(["git", "-C", wt, "apply", os.path.join(ROOT, "seeded", sid, "patch.diff")], capture_output=True, text=True)
+        r = subprocess.run(["git", "-C", wt, "apply", os.path.join(ROOT, SDIR, sid, "patch.diff")], capture_output=True, text=True)
         if r.returncode != 0:
             return sid, dict(error="patch does not apply: " + r.stderr[:200])
         for chk in [prop] + extra.get(sid, []):
